@@ -147,7 +147,7 @@ CLAIMS = {
     "C12": dict(
         text="FileRoundTrip.tla defines the expected restored tree (same paths, types, bytes, link targets; modes masked by "
              "the umask unless PreservePermissions; SkipUnpack keeps the gzip blob under the name) over the case space "
-             "shape x {TarReproducible, PreservePermissions, SkipUnpack, ForceCAS, IgnoreNoName} x intermediate store (memory, OCI layout, file, remote), which TLC emits; the "
+             "shape x {TarReproducible, PreservePermissions, SkipUnpack, ForceCAS, IgnoreNoName} x intermediate store (memory, OCI layout, file, a remote Repository over a full and over a minimal registry), which TLC emits; the "
              "driver materialises each shape (nesting, empty directories and files, 120-character and non-ASCII names, "
              "relative and dangling symlinks, modes 0444/0600/0755/0666/0700/0775, a file larger than the copy buffer) "
              "twice with different timestamps, runs Add -> PackManifest -> Copy -> Copy on real stores and RoundJudge.tla "
